@@ -170,9 +170,9 @@ def _refused_step(k, d1, d2, d3):
 
 UNBLOCK = ("sqlite3.connect", "sqlite3.connect/handle")
 for _k in range(len(RO_CMDS)):
-    EXTRA_JOBS.append({"name": f"examine_step[{RO_CMDS[_k][0]}]", "module": "harness.c05", "fn": "examine_step", "params": {"k": _k, "prop": "C05"}, "timeout": 300, "per_path": 90})
+    EXTRA_JOBS.append({"name": f"examine_step[{RO_CMDS[_k][0]}]", "module": "harness.c05", "fn": "examine_step", "params": {"k": _k, "prop": "C05"}, "timeout": 600, "per_path": 90})
 for _k in range(len(BAD_CMDS)):
-    EXTRA_JOBS.append({"name": f"refused_step[{BAD_CMDS[_k][0]}]", "module": "harness.c05", "fn": "refused_step", "params": {"k": _k, "prop": "C05"}, "timeout": 300, "per_path": 90, "unblock": UNBLOCK})
+    EXTRA_JOBS.append({"name": f"refused_step[{BAD_CMDS[_k][0]}]", "module": "harness.c05", "fn": "refused_step", "params": {"k": _k, "prop": "C05"}, "timeout": 600, "per_path": 90, "unblock": UNBLOCK})
 EXTRA_SAMPLES += [
     {"fn": "examine_step", "params": {"k": 0, "prop": "C05"}, "args": {"k": 0, "s": 2, "d1": False, "d2": False, "d3": False, "un1": True, "un2": True, "un3": False}, "expect_fail": True},
     {"fn": "refused_step", "params": {"k": 7, "prop": "C05"}, "args": {"k": 7, "d1": True, "d2": False, "d3": False}},
